@@ -7,10 +7,16 @@
 (* with a QoS below the message's (signature detail for known findings only).                         *)
 EXTENDS MqttDelivery, Json, SequencesExt
 
-CONSTANTS GenFilters, MaxSteps
+CONSTANTS GenFilters, MaxSteps,
+          GenClients,   \* the clients that subscribe / unsubscribe (all clients are connected)
+          Alternate,    \* TRUE: subscription changes and publishes alternate strictly (so that every change of a
+                        \* subscription - in particular a re-subscription with another QoS - is preceded and followed by a publish)
+          WithCPub      \* FALSE: no client publishes (narrow universes used to make re-subscriptions with another QoS frequent)
 VARIABLES out, pol, k
 
-Policies == {"prompt", "late", "never"}
+(* prompt: PUBACK on receipt; late: only after a retransmission was seen; never; holdfirst: prompt for   *)
+(* everything except the first QoS1 message received, which is never acknowledged (acks out of order)     *)
+Policies == {"prompt", "late", "never", "holdfirst"}
 
 GInit == /\ subs = {} /\ n = 0 /\ last = [a |-> "init"]
          /\ msgs = <<>> /\ inq = [c \in Clients |-> <<>>] /\ pend = [c \in Clients |-> <<>>] /\ got = [c \in Clients |-> <<>>]
@@ -20,10 +26,10 @@ GInit == /\ subs = {} /\ n = 0 /\ last = [a |-> "init"]
 
 Frame == UNCHANGED <<msgs, inq, pend, got, ackd, resends, up, piped, upack, step, pol>>
 
-GSub == \E c \in Clients, f \in GenFilters, q \in QoS :
+GSub == \E c \in GenClients, f \in GenFilters, q \in QoS :
            /\ Subscribe(c, <<f>>, <<q>>, {1})
            /\ out' = ToJson([a |-> "sub", c |-> c, f |-> f, q |-> q]) /\ Frame
-GUnsub == \E c \in Clients, f \in GenFilters :
+GUnsub == \E c \in GenClients, f \in GenFilters :
            /\ \E s \in subs : s.c = c /\ s.f = f
            /\ Unsubscribe(c, <<f>>)
            /\ out' = ToJson([a |-> "unsub", c |-> c, f |-> f]) /\ Frame
@@ -32,12 +38,17 @@ GPub == \E t \in PubTopics, q \in QoS :
            /\ out' = ToJson([a |-> "pub", t |-> t, q |-> q, must |-> SetToSeq(Must(t, q)), may |-> SetToSeq(May(t, q)),
                                low |-> SetToSeq({c \in Clients : \E s \in subs : s.c = c /\ Matches(s.f, t) /\ s.q < q})])
            /\ UNCHANGED vars /\ Frame
-GCPub == \E c \in Clients, q \in QoS, t \in {TAB} :
-           /\ out' = ToJson([a |-> "cpub", c |-> c, q |-> q, t |-> t])
+GCPub == \E c \in Clients, q \in QoS, t \in {TAB}, b \in {1, 4} :      \* b: PUBLISH packets sent back to back
+           /\ WithCPub
+           /\ out' = ToJson([a |-> "cpub", c |-> c, q |-> q, t |-> t, burst |-> b])
            /\ UNCHANGED vars /\ Frame
-GNext == k < MaxSteps /\ k' = k + 1 /\ (GSub \/ GUnsub \/ GPub \/ GPub \/ GCPub)
+GNext == /\ k < MaxSteps /\ k' = k + 1
+         /\ IF Alternate THEN (IF k % 2 = 0 THEN GSub \/ GUnsub ELSE GPub)
+                          ELSE (GSub \/ GUnsub \/ GPub \/ GCPub)
 GSpec == GInit /\ [][GNext]_<<dvars, out, pol, k>>
 
 GenFiltersWide == {FAH, FAB, FPB, FAP}
 GenTopics == {TAB, TAC, TA}
+GenFiltersNarrow == {FAB}
+GenTopicsNarrow == {TAB}
 =============================================================================
